@@ -871,6 +871,51 @@ func nameSet(t *runner[pdf.Name], n int, style int) []pdf.Name {
 		for i := 0; len(set) < n; i++ {
 			set[pdf.Name(fmt.Sprintf("key%04d", i))] = true
 		}
+	case 3: // one long common prefix (of 00s, of FFs, or arbitrary), then all strings over {00,FF}, shortest first
+		pre := make([]byte, []int{1, 2, 31, 32, 127, 128, 255, 256, 300}[e.Rand.IntN(9)])
+		switch e.Rand.IntN(3) {
+		case 0:
+		case 1:
+			for i := range pre {
+				pre[i] = 0xff
+			}
+		default:
+			for i := range pre {
+				pre[i] = byte(e.Rand.IntN(256))
+			}
+		}
+		if n > 1 && e.Rand.IntN(2) == 0 {
+			set[""] = true
+		}
+		for l := 0; len(set) < n; l++ {
+			for x := 0; x < 1<<l && len(set) < n; x++ {
+				b := append([]byte{}, pre...)
+				for i := 0; i < l; i++ {
+					if x>>i&1 == 1 {
+						b = append(b, 0xff)
+					} else {
+						b = append(b, 0)
+					}
+				}
+				set[pdf.Name(b)] = true
+			}
+		}
+	case 4: // neighbours: k, k+00, k+FF, k with its last byte replaced by 00 / FF, for random k
+		if n > 0 && e.Rand.IntN(2) == 0 {
+			set[""] = true
+		}
+		for len(set) < n {
+			k := t.randName()
+			cand := []pdf.Name{k, k + "\x00", k + "\xff"}
+			if len(k) > 0 {
+				cand = append(cand, k[:len(k)-1]+"\x00", k[:len(k)-1]+"\xff", k[:len(k)-1])
+			}
+			for _, c := range cand {
+				if len(set) < n {
+					set[c] = true
+				}
+			}
+		}
 	default: // all strings over a two-letter alphabet {00,FF}, shortest first
 		for l := 0; len(set) < n; l++ {
 			for x := 0; x < 1<<l && len(set) < n; x++ {
@@ -957,6 +1002,40 @@ func intSet(t *runner[pdf.Integer], n int, style int) []pdf.Integer {
 		for i := 0; len(set) < n; i++ {
 			set[pdf.Integer(i-n/2)] = true
 		}
+	case 3: // two runs of neighbours separated by ONE gap of extreme size, at a random or boundary position
+		if n < 2 {
+			for _, x := range []pdf.Integer{math.MaxInt64, math.MinInt64, 0}[:1+e.Rand.IntN(3)] {
+				if len(set) < n {
+					set[x] = true
+				}
+			}
+			break
+		}
+		pos := []int{1, n - 1, n / 2, 63, 64, 65, 128, 4032, 4096, 1 + e.Rand.IntN(n-1)}
+		sp := pos[e.Rand.IntN(len(pos))]
+		if sp < 1 || sp > n-1 {
+			sp = 1 + e.Rand.IntN(n-1)
+		}
+		return gapSet(n, sp, bigGaps[e.Rand.IntN(len(bigGaps))], e.Rand.IntN(3))
+	case 4: // every step drawn from the gaps around 2^31 and 2^32; starts at MinInt64, around zero, or ends at MaxInt64
+		steps := make([]uint64, n)
+		var sum uint64
+		for i := 1; i < n; i++ {
+			steps[i] = smallGaps[e.Rand.IntN(len(smallGaps))]
+			sum += steps[i]
+		}
+		var x uint64 // offset from MinInt64
+		switch e.Rand.IntN(3) {
+		case 0:
+		case 1:
+			x = 1<<63 - sum/2
+		default:
+			x = math.MaxUint64 - sum
+		}
+		for i := 0; i < n; i++ {
+			x += steps[i]
+			set[pdf.Integer(int64(x ^ (1 << 63)))] = true
+		}
 	default: // sparse with gaps
 		x := pdf.Integer(-int64(e.Rand.IntN(3 * (n + 1))))
 		for len(set) < n {
@@ -969,6 +1048,40 @@ func intSet(t *runner[pdf.Integer], n int, style int) []pdf.Integer {
 		ks = append(ks, k)
 	}
 	sort.Slice(ks, func(i, j int) bool { return ks[i] < ks[j] })
+	return ks
+}
+
+const nStyles = 5
+
+// gaps between consecutive integer keys
+var bigGaps = []uint64{1<<31 - 1, 1 << 31, 1<<31 + 1, 1<<32 - 1, 1 << 32, 1<<32 + 1, 1 << 62, 1<<63 - 1, 1 << 63, 1<<63 + 1, math.MaxUint64}
+var smallGaps = []uint64{1, 1, 2, 1<<31 - 1, 1 << 31, 1<<31 + 1, 1<<32 - 1, 1 << 32, 1<<32 + 1, 1 << 33}
+
+// gapSet: n ascending integers, keys sp-1 and sp differ by gap (made smaller if 2^64 has no room for
+// it), all other neighbours differ by 1; where = 0: the set starts at MinInt64, 1: it ends at
+// MaxInt64, 2: in the middle of the room there is
+func gapSet(n, sp int, gap uint64, where int) []pdf.Integer {
+	room := math.MaxUint64 - uint64(n-2) // largest possible gap
+	if gap > room {
+		gap = room
+	}
+	slack := room - gap
+	var x uint64 // offset of the first key from MinInt64
+	switch where {
+	case 0:
+	case 1:
+		x = slack
+	default:
+		x = slack / 2
+	}
+	ks := make([]pdf.Integer, 0, n)
+	for i := 0; i < n; i++ {
+		if i == sp {
+			x += gap - 1
+		}
+		ks = append(ks, pdf.Integer(int64(x^(1<<63))))
+		x++
+	}
 	return ks
 }
 
@@ -1316,7 +1429,7 @@ func (t *runner[K]) graphs(set func(*runner[K], int, int) []K, probes func(*runn
 	R := e.Rand
 	for i := 0; i < e.Pick(150, 4000); i++ {
 		n := 1 + R.IntN(60)
-		ks := set(t, n, R.IntN(3))
+		ks := set(t, n, R.IntN(nStyles))
 		vals := make([]int64, len(ks))
 		for j := range vals {
 			vals[j] = int64(j)
@@ -1395,10 +1508,10 @@ func (t *runner[K]) history(set func(*runner[K], int, int) []K, probes func(*run
 	R := e.Rand
 	n := R.IntN(140)
 	data := map[K]pdf.Object{}
-	for _, k := range set(t, n, R.IntN(3)) {
+	for _, k := range set(t, n, R.IntN(nStyles)) {
 		data[k] = pdf.Integer(0)
 	}
-	pool := set(t, n+40, R.IntN(3)) // keys to add later
+	pool := set(t, n+40, R.IntN(nStyles)) // keys to add later
 	mem := kd.newMem(data)
 	var trace []string
 	sortedKeys := func() []K {
@@ -1533,7 +1646,7 @@ func runKind[K cmp.Ordered](e *common.Env, kd *kind[K], id *int,
 		big = append(big, 8191, 8192, 8256, 12288, 20000)
 	}
 	for _, n := range bsizes {
-		for style := 0; style < 3; style++ {
+		for style := 0; style < nStyles; style++ {
 			ks := set(t, n, style)
 			t.testWrite(ks, probes(t, ks, 200, 60), false, fmt.Sprintf("boundary-size-style%d", style), t.nextCfg())
 		}
@@ -1541,17 +1654,17 @@ func runKind[K cmp.Ordered](e *common.Env, kd *kind[K], id *int,
 	// every writer configuration at the sizes where the number of leaves and levels changes
 	for _, n := range []int{1, 63, 64, 65, 128, 129, 200, 4097} {
 		for ci, cfg := range cfgs {
-			ks := set(t, n, ci%3)
+			ks := set(t, n, ci%nStyles)
 			t.testWrite(ks, probes(t, ks, 70, 30), kd.writeMap != nil && ci%2 == 1 && n < 1000, "every-config", cfg)
 		}
 	}
 	for i, n := range big {
-		ks := set(t, n, i%3)
+		ks := set(t, n, i%nStyles)
 		t.testWrite(ks, probes(t, ks, e.Pick(150, 1500), e.Pick(80, 500)), false, "size>=63*64", t.nextCfg())
 	}
 	// every size 0..200 once (thorough: 0..600)
 	for n := 0; n <= e.Pick(200, 600); n++ {
-		ks := set(t, n, e.Rand.IntN(3))
+		ks := set(t, n, e.Rand.IntN(nStyles))
 		t.testWrite(ks, probes(t, ks, 40, 25), kd.writeMap != nil && n%2 == 1, "all-sizes", t.nextCfg())
 	}
 	// random sizes, random styles; WriteMap where available
@@ -1560,13 +1673,13 @@ func runKind[K cmp.Ordered](e *common.Env, kd *kind[K], id *int,
 		if e.Rand.IntN(e.Pick(25, 8)) == 0 {
 			n = 3900 + e.Rand.IntN(400)
 		}
-		ks := set(t, n, e.Rand.IntN(3))
+		ks := set(t, n, e.Rand.IntN(nStyles))
 		t.testWrite(ks, probes(t, ks, 30, 30), kd.writeMap != nil && e.Rand.IntN(3) == 0, "random-size", t.nextCfg())
 	}
 	// keys that are not strictly increasing must be refused
 	for i := 0; i < e.Pick(90, 2000); i++ {
 		n := 2 + e.Rand.IntN(200)
-		ks := perturb(e, set(t, n, e.Rand.IntN(3)))
+		ks := perturb(e, set(t, n, e.Rand.IntN(nStyles)))
 		t.testWrite(ks, nil, false, "unsorted", t.nextCfg())
 	}
 	// hand-built trees: valid ones of other shapes, and mutated ones
@@ -1575,7 +1688,7 @@ func runKind[K cmp.Ordered](e *common.Env, kd *kind[K], id *int,
 		if e.Rand.IntN(10) == 0 {
 			n = 200 + e.Rand.IntN(600)
 		}
-		ks := set(t, n, e.Rand.IntN(3))
+		ks := set(t, n, e.Rand.IntN(nStyles))
 		vals := make([]int64, len(ks))
 		for j := range vals {
 			vals[j] = int64(j)
